@@ -90,9 +90,68 @@ def tie_history_case(pcfg, units, U, k, sf, spec, big):
         viol.append({'property': 'C08', 'kind': 'above-saved-position', 'witness': wit})
     if any(y[1] > x[1] for x, y in zip(pb, pb[1:])):
         viol.append({'property': 'C08', 'kind': 'order', 'witness': wit})
-    if bad_extra or any(c > 1 for c in got.values()):
-        viol.append({'property': 'C08', 'kind': 'illegal-repeat', 'repeated': str(bad_extra[:3] or [x for x, c in got.items() if c > 1][:3]), 'witness': wit})
+    # a base structure listed twice in grammar.txt gives two pre-terminals that look alike: the resumed session may hand each of them
+    # out, never more often than the whole run has them
+    whole = Counter(U)
+    if bad_extra or any(c > whole[x] for x, c in got.items()):
+        viol.append({'property': 'C08', 'kind': 'illegal-repeat', 'repeated': str(bad_extra[:3] or [x for x, c in got.items() if c > whole[x]][:3]), 'witness': wit})
     return viol, 2
+
+
+def cli_resume_flags(ctx, focus, violations, n):
+    """the whole resume path of the program: a session started with option flags writes its save file; `--load` (flags taken from the
+    save file, whatever is typed beside `--load`) must continue the same run - from the initial save that is the whole stream again"""
+    import gen_omen
+    rng = ctx.rng
+    cli_runs = 0
+    for i in range(n):
+        om = gen_omen.gen_omen(rng, ngram=2, nletters=2, maxlen_extra=1)
+        spec = gen_rulesets.gen_ruleset(rng, omen=om, mode='dyadic', markov=True, max_structs=2, max_pos=2, max_groups=3, max_vals=2)
+        if i == 0:
+            # a Markov part that is known to produce strings (two letters, every n-gram at level 0, lengths 2 and 3 at level 1)
+            spec['omen'] = {'ngram': 2, 'alphabet': ['a', 'b'], 'ip': [[0, 'a'], [0, 'b']], 'ep': [[0, 'a'], [0, 'b']],
+                            'cp': [[0, x + y] for x in 'ab' for y in 'ab'], 'ln': [10, 1, 1], 'keyspace': [[1, 12]]}
+            spec['omen_prob'] = [['1', '0.5']]
+        # both flags must matter for this ruleset: a word variable with two masks of different probability, and a Markov structure
+        spec['terminals'].setdefault('A2', [['ab', '0.5'], ['cd', '0.25']])
+        spec['terminals']['C2'] = [['LL', '0.5'], ['UL', '0.25']]
+        if not any(st == 'A2' for st, _ in spec['grammar']):
+            spec['grammar'].append(['A2', '0.0625'])
+        name = f"c08cli{i}"
+        common.install_ruleset(spec, name)
+        outs = {}
+        for fl in ([], ['--skip_brute'], ['--all_lower'], ['--skip_brute', '--all_lower']):
+            sess = f"c08s{i}{len(fl)}{(fl or ['--n'])[0][2]}"
+            o1, e1, rc1 = common.run_cli('pcfg_guesser.py', ['-r', name, '-s', sess] + fl, stdin='pipe-open')
+            o2, e2, rc2 = common.run_cli('pcfg_guesser.py', ['-s', sess, '--load'], stdin='pipe-open')
+            cli_runs += 2
+            if not fl and focus == 'C08':
+                # the same ruleset retrained (another UUID): the saved session must be refused - no guess is written
+                spec2 = dict(spec, uuid='00000000-0000-0000-0000-0000000000ff')
+                common.install_ruleset(spec2, name)
+                o3, e3, rc3 = common.run_cli('pcfg_guesser.py', ['-s', sess, '--load'], stdin='pipe-open')
+                cli_runs += 1
+                if o3 != b'':
+                    violations.append({'property': 'C08', 'kind': 'uuid-mismatch-not-refused', 'lines': o3.count(b'\n'),
+                                       'witness': {'spec': spec, 'cli': fl, 'uuid_changed': True}})
+                common.install_ruleset(spec, name)
+            if o1 != o2:
+                violations.append({'property': focus, 'kind': 'resume-cli-differs', 'flags': fl, 'first_run_lines': o1.count(b'\n'),
+                                   'resumed_lines': o2.count(b'\n'), 'witness': {'spec': spec, 'cli': fl}})
+            # the flags of a session are those it was started with: the other ones typed beside `--load` change nothing
+            typed = [f for f in ('--skip_brute', '--all_lower') if f not in fl]
+            outs[tuple(fl)] = o1
+            if typed:
+                o4, e4, rc4 = common.run_cli('pcfg_guesser.py', ['-s', sess, '--load'] + typed, stdin='pipe-open')
+                cli_runs += 1
+                if o4 != o1:
+                    violations.append({'property': focus, 'kind': 'resume-cli-differs', 'flags': fl, 'typed_on_resume': typed,
+                                       'first_run_lines': o1.count(b'\n'), 'resumed_lines': o4.count(b'\n'),
+                                       'witness': {'spec': spec, 'cli': fl, 'typed': typed}})
+        if i == 0 and len(set(outs.values())) != 4:
+            violations.append({'property': focus, 'kind': 'option-flags-without-effect', 'lines': {' '.join(k): v.count(b'\n') for k, v in outs.items()},
+                               'witness': {'spec': spec, 'cli': []}})
+    return cli_runs
 
 
 def session_full_runs(ctx, viol, dist):
@@ -420,38 +479,14 @@ def run(ctx, focus):
         cases += trained_order_cases(ctx, focus, violations, dist)
     if focus == 'C02':
         cases += session_full_runs(ctx, violations, dist)
+        # ... and the language is that of the session's own flags when the run is picked up from its save file
+        n_cli = cli_resume_flags(ctx, focus, violations, 1)
+        cli_runs += n_cli
+        cases += n_cli
     if focus == 'C08':
         # the whole resume path of the program: a session started with option flags writes its save file; `--load` (flags taken
         # from the save file) must continue the same run - from the initial save that is the whole stream again
-        import gen_omen
-        for i in range(ctx.scale(1, 4)):
-            om = gen_omen.gen_omen(rng, ngram=2, nletters=2, maxlen_extra=1)
-            spec = gen_rulesets.gen_ruleset(rng, omen=om, mode='dyadic', markov=True, max_structs=2, max_pos=2, max_groups=3, max_vals=2)
-            # both flags must matter for this ruleset: a word variable with two masks of different probability, and a Markov structure
-            spec['terminals'].setdefault('A2', [['ab', '0.5'], ['cd', '0.25']])
-            spec['terminals']['C2'] = [['LL', '0.5'], ['UL', '0.25']]
-            if not any(st == 'A2' for st, _ in spec['grammar']):
-                spec['grammar'].append(['A2', '0.0625'])
-            name = f"c08cli{i}"
-            common.install_ruleset(spec, name)
-            for fl in ([], ['--skip_brute'], ['--all_lower'], ['--skip_brute', '--all_lower']):
-                sess = f"c08s{i}{len(fl)}{(fl or ['--n'])[0][2]}"
-                o1, e1, rc1 = common.run_cli('pcfg_guesser.py', ['-r', name, '-s', sess] + fl, stdin='pipe-open')
-                o2, e2, rc2 = common.run_cli('pcfg_guesser.py', ['-s', sess, '--load'], stdin='pipe-open')
-                cli_runs += 2
-                if not fl:
-                    # the same ruleset retrained (another UUID): the saved session must be refused - no guess is written
-                    spec2 = dict(spec, uuid='00000000-0000-0000-0000-0000000000ff')
-                    common.install_ruleset(spec2, name)
-                    o3, e3, rc3 = common.run_cli('pcfg_guesser.py', ['-s', sess, '--load'], stdin='pipe-open')
-                    cli_runs += 1
-                    if o3 != b'':
-                        violations.append({'property': 'C08', 'kind': 'uuid-mismatch-not-refused', 'lines': o3.count(b'\n'),
-                                           'witness': {'spec': spec, 'cli': fl, 'uuid_changed': True}})
-                    common.install_ruleset(spec, name)
-                if o1 != o2:
-                    violations.append({'property': 'C08', 'kind': 'resume-cli-differs', 'flags': fl, 'first_run_lines': o1.count(b'\n'),
-                                       'resumed_lines': o2.count(b'\n'), 'witness': {'spec': spec, 'cli': fl}})
+        cli_runs += cli_resume_flags(ctx, focus, violations, ctx.scale(1, 4))
         cases += cli_runs
         cases += session_tie_histories(ctx, violations, dist)
         # the program itself: quit by a typed q while guesses flow, another session whose name differs only after the last dot, resume
@@ -535,7 +570,7 @@ def replay(ctx, payload, focus):
     if w and 'cli' in w:
         common.install_ruleset(w['spec'], 'replay08')
         o1, _, _ = common.run_cli('pcfg_guesser.py', ['-r', 'replay08', '-s', 'replay08'] + w['cli'], stdin='pipe-open')
-        o2, _, _ = common.run_cli('pcfg_guesser.py', ['-s', 'replay08', '--load'], stdin='pipe-open')
+        o2, _, _ = common.run_cli('pcfg_guesser.py', ['-s', 'replay08', '--load'] + w.get('typed', []), stdin='pipe-open')
         return [] if o1 == o2 else [{'kind': 'resume-cli-differs'}]
     if not w:
         return []
